@@ -242,6 +242,13 @@ def run_requests(reqs, tag="b", workers=None):
     from concurrent.futures import ThreadPoolExecutor
     if not reqs:
         return {}
+    rec = os.environ.get("VERIF_RECORD")
+    if rec:
+        # tools/mkuniverse.py: every input any check sends to the library is recorded (family tag + text)
+        with open(rec, "a", encoding="utf-8") as f:
+            for q in reqs:
+                if isinstance(q.get("input"), str):
+                    f.write(json.dumps({"tag": tag, "t": q["input"]}) + "\n")
     workers = workers or NCPU
     workers = max(1, min(workers, (len(reqs) + 49) // 50))
     shards = [reqs[i::workers] for i in range(workers)]
